@@ -67,6 +67,7 @@ UNITS = {
     'VALUETREE': dict(template='valuetree.rs', rlimit=30),
     'SIMPLEVALUE': dict(template='simplevalue.rs', rlimit=30),
     'MECHLIST': dict(template='mechlist.rs', rlimit=30),
+    'VALUEDE': dict(template='valuede.rs', rlimit=30),
 }
 
 VARW = 'PROVED for every value (units SERSTR + READERS): strings, symbols and binaries of ANY length and content, outside and inside arrays -- the serializer writes a valid str8/str32, sym8/sym32, vbin8/vbin32 encoding whose size field counts octets ([C05.*.encoding], [C05.*.array-element]); the decoder reads both width variants by the AMQP layout and accepts every one of them from a reliable reader ([C05.*.decoding], [C05.*.every-variant-accepted]); lemma_var_round_trip joins the two: decode(encode(x) ++ rest) == x, consuming exactly the encoding; serialized_size agrees with the octets written ([C20.size.*]); compound headers are decoded to the body length and count the layout defines ([C05.compound.header-decoding])'
@@ -136,7 +137,7 @@ PROPS = {
             dict(name='rt_array_of_zero_width', kind='agreement', target='serde_amqp::{to_vec,from_slice}::<Value>', args=['C03.array-of-zero-width'],
                  claim='the same round trip for the values in which an array of two or more zero-width elements (null, empty list) occurs', bound='30 values (as above, restricted to that class)'),
         ],
-        units=['SERHDR', 'SERSTR', 'SERFIX', 'READERS', 'MESSAGE', 'SEQACCESS', 'VALUESER', 'ANYDISPATCH', 'DEENTRY', 'SERENTRY', 'DESCDISPATCH', 'WIRELAYOUT', 'ERRCOND', 'ENUMCODES', 'VISITENUM', 'NEWTYPES', 'VALUETREE', 'SIMPLEVALUE', 'MECHLIST'], kani=K_RT, level='proof', title='Codec round trip (fixed- and variable-width primitives, compound headers)',
+        units=['SERHDR', 'SERSTR', 'SERFIX', 'READERS', 'MESSAGE', 'SEQACCESS', 'VALUESER', 'ANYDISPATCH', 'DEENTRY', 'SERENTRY', 'DESCDISPATCH', 'WIRELAYOUT', 'ERRCOND', 'ENUMCODES', 'VISITENUM', 'NEWTYPES', 'VALUETREE', 'SIMPLEVALUE', 'MECHLIST', 'VALUEDE'], kani=K_RT, level='proof', title='Codec round trip (fixed- and variable-width primitives, compound headers)',
         lemmas={'READERS': ['lemma_var_round_trip', 'lemma_be32_inverse', 'lemma_be64_inverse', 'lemma_fixed_round_trip_u64', 'lemma_fixed_round_trip_u32', 'lemma_fixed_round_trip_u8', 'lemma_fixed_round_trip_i32', 'lemma_fixed_round_trip_i64'], 'MESSAGE': ['lemma_message_round_trip', 'lemma_run', 'lemma_fold_concat', 'lemma_fold_opt']},
         assumptions=[VARW,
             'PROVED for every value: the fixed-width primitives listed in the obligations (Kani harnesses, loop-free / fully unwound over the full domain) and the compound header writers (Verus)',
@@ -149,7 +150,7 @@ PROPS = {
                 dict(name='spec_defaults_of_elided_fields', kind='agreement', target='serde_amqp::from_slice~fe2o3_amqp_types-composites', args=['C05.spec-defaults'],
                      claim='a composite whose defaulted fields are elided (list0, short list) or sent as null decodes to the defaults of the SPECIFICATION, written out in the probe (header: durable false, priority 4, first-acquirer false, delivery-count 0; open: max-frame-size 4294967295, channel-max 65535; begin: handle-max 4294967295; attach: snd-settle-mode mixed, rcv-settle-mode first, incomplete-unsettled false; flow: drain / echo false; transfer: more / aborted / batchable / resume false; disposition: settled / batchable false; detach: closed false; source / target: durable none, expiry-policy session-end, timeout 0, dynamic false)',
                      bound='12 reference encodings written by hand from the specification, 36 field checks (derive-macro output is outside the Verus subset)')],
-        units=['SERHDR', 'SERSTR', 'SERFIX', 'READERS', 'VALUESER', 'MESSAGE', 'SEQACCESS', 'ANYDISPATCH', 'DEENTRY', 'SERENTRY', 'DESCDISPATCH', 'WIRELAYOUT', 'ERRCOND', 'ENUMCODES', 'VISITENUM', 'NEWTYPES', 'VALUETREE', 'SIMPLEVALUE', 'MECHLIST'], kani=K_RT + K_DEC, level='proof', title='Valid encodings / every variant accepted (fixed- and variable-width primitives, compound headers)',
+        units=['SERHDR', 'SERSTR', 'SERFIX', 'READERS', 'VALUESER', 'MESSAGE', 'SEQACCESS', 'ANYDISPATCH', 'DEENTRY', 'SERENTRY', 'DESCDISPATCH', 'WIRELAYOUT', 'ERRCOND', 'ENUMCODES', 'VISITENUM', 'NEWTYPES', 'VALUETREE', 'SIMPLEVALUE', 'MECHLIST', 'VALUEDE'], kani=K_RT + K_DEC, level='proof', title='Valid encodings / every variant accepted (fixed- and variable-width primitives, compound headers)',
         lemmas={'READERS': ['lemma_var_round_trip', 'lemma_be32_inverse', 'lemma_be64_inverse', 'lemma_fixed_round_trip_u64', 'lemma_fixed_round_trip_u32', 'lemma_fixed_round_trip_u8', 'lemma_fixed_round_trip_i32', 'lemma_fixed_round_trip_i64']},
         assumptions=[VARW,
             'PROVED for every value: the fixed-width primitives listed in the obligations (Kani harnesses, loop-free / fully unwound over the full domain) and the compound header writers (Verus)',
@@ -167,7 +168,7 @@ PROPS = {
                      claim='the same agreement for described types (derive(DeserializeComposite) performatives, delivery states, message sections; Described<T>)', bound='8 typed values'),
                 dict(name='tree_vs_bytes_untyped', kind='agreement', target='serde_amqp::{to_value,from_value}~{to_vec,from_slice}', args=['C20.value-tree-untyped'],
                      claim='the same agreement with the untyped tree itself as target type (from_value::<Value>, OrderedMap<Symbol, Value>)', bound='8 values')],
-        units=['FRAMEDEC', 'READERS', 'SERSTR', 'SERFIX', 'SERHDR', 'VALUESER', 'BYTEREADER', 'DEENTRY', 'VISITENUM', 'SIZEENTRY', 'VALUETREE', 'SIMPLEVALUE'], lemmas={'VALUESER': ['lemma_tree_equals_direct']}, kani=K_RT + K_READER, level='proof', title='Codec entry points agree (primitives; frame payload)',
+        units=['FRAMEDEC', 'READERS', 'SERSTR', 'SERFIX', 'SERHDR', 'VALUESER', 'BYTEREADER', 'DEENTRY', 'VISITENUM', 'SIZEENTRY', 'VALUETREE', 'SIMPLEVALUE', 'VALUEDE'], lemmas={'VALUESER': ['lemma_tree_equals_direct']}, kani=K_RT + K_READER, level='proof', title='Codec entry points agree (primitives; frame payload)',
         assumptions=[
             'PROVED for every value: the fixed-width primitives listed in the obligations (Kani harnesses, loop-free / fully unwound over the full domain) and the compound header writers (Verus)',
             'BOUNDED ONLY (listed under bounded_obligations, never counted as proved): decoders on short byte strings, compound headers with hostile size/count bytes',
@@ -175,7 +176,7 @@ PROPS = {
             'compound header writers: the call-site fact count <= byte length (every element occupies at least one byte in this implementation) is assumed; the serde SerializeSeq/Map impls that call them are not under contract'] + ['to_value/from_value vs bytes: decided only on the samples of the bounded probes tree_vs_bytes_* (value/ser.rs and value/de.rs are serde visitor code outside the Verus subset)',
             'PROVED for every input (unit READERS): SliceReader and IoReader satisfy ONE Read contract (peek/peek_bytes consume nothing, next/read_exact/read_bytes consume exactly what they return, in order), so decoding from a slice and from a stream see the same bytes and leave the same bytes behind; the LazyValue/byte_buf scanner takes exactly one encoded value (length by the AMQP constructor rule) -- the typed entry points built on top (de.rs) are under contract in units READERS / SEQACCESS / ANYDISPATCH / DEENTRY']),
     'C04': dict(
-        units=['READERS', 'SEQACCESS', 'BYTEREADER', 'DEENTRY', 'DESCDISPATCH', 'ERRCOND'], kani=K_TOTAL3 + K_HDR_QUICK + K_HDR_THOROUGH, level='proof', title='Decoding untrusted bytes (reader layer and typed entry points proved; recursion depth and whole-value decoding bounded)',
+        units=['READERS', 'SEQACCESS', 'BYTEREADER', 'DEENTRY', 'DESCDISPATCH', 'ERRCOND', 'VALUEDE'], kani=K_TOTAL3 + K_HDR_QUICK + K_HDR_THOROUGH, level='proof', title='Decoding untrusted bytes (reader layer and typed entry points proved; recursion depth and whole-value decoding bounded)',
         probes=[
             dict(name='nest_list32', target='serde_amqp::from_slice::<Value>', args=['nest', '100000'],
                  claim='decoding 100000 nested list32 headers (a 900 KB input) as Value returns (Ok or Err) instead of exhausting an 8 MiB stack',
